@@ -296,8 +296,13 @@ class WorkQueue:
     async def cancel(self, reason: BaseException | None = None) -> None:
         """Cancel all pending work, awaiting any asynchronous cleanup."""
         self._stopped = True
-        self._channel.put_nowait(_STOP)  # wake up a parked event consumer
         cancel_awaitables: list[Awaitable[Any]] = []
+        # Work carried by graph events that have not been handled yet is not
+        # part of the graph, so it must be cancelled here.
+        channel = self._channel
+        while not channel.empty():
+            self._cancel_unhandled(channel.get_nowait(), reason, cancel_awaitables)
+        channel.put_nowait(_STOP)  # wake up a parked event consumer
         for group in list(self._root_groups):
             self._cancel_group(group, reason, cancel_awaitables)
         for stream in list(self._root_streams):
@@ -307,6 +312,26 @@ class WorkQueue:
         cancel_awaitables.extend(self._pump_tasks)
         if cancel_awaitables:
             await gather(*cancel_awaitables, return_exceptions=True)
+
+    def _cancel_unhandled(
+        self,
+        graph_event: Any,
+        reason: BaseException | None,
+        cancel_awaitables: list[Awaitable[Any]],
+    ) -> None:
+        """Cancel the new work carried by a graph event that was never handled."""
+        if isinstance(graph_event, _TaskSuccess):
+            works = [graph_event.result.work]
+        elif isinstance(graph_event, _StreamItems):
+            works = [item.work for item in graph_event.items]
+        else:
+            return
+        for work in works:
+            if work:
+                for task in work.tasks:
+                    self._cancel_task(task, reason, cancel_awaitables)
+                for stream in work.streams:
+                    self._cancel_stream(stream, reason, cancel_awaitables)
 
     def _cancel_group(
         self,
